@@ -16,6 +16,35 @@ CLAIMED = {
              "mathematical; pyvc's encoding of the accepted Python subset. Not decided: the polynomial work bound; repeatability is argued from "
              "the frame, not an SMT obligation.",
         ref="DESIGN.md section 4 C12, Appendix A.1"),
+    'C15': dict(
+        text="Representation invariant of the real KGTimerHandler / _call_periodic / run closure over ghost state (stopped flag, number of "
+             "live loop handles): at most one live handle, none once stopped; .timerc returns 1 exactly when it stopped a live timer; the "
+             "next tick is scheduled exactly at the next interval boundary after now (floor by a skolem constant, independent of how the "
+             "code computes the delay); callback invoked exactly once per tick; argument validation and KGFnWrapper wrapping in .timer. "
+             "Holds for every callback behaviour admitted by the rely condition (cancel self, return anything, raise).",
+        note="Assumed: asyncio loop contract (handles fire at most once, not before their time, never after cancel; run-to-completion), "
+             "floats as reals, no time passes between evaluating call_later's delay and its reading the clock, callbacks reach the timer only "
+             "through cancel(). Behaviour after a callback raises is not specified by the property and not constrained.",
+        ref="DESIGN.md section 4 C15, Appendix A.2"),
+    'C16': dict(
+        text="Single-client proof over the symbolic image of FileCache: quiescent invariant Q (accounting cur == sum of counted entries via "
+             "msum point-update lemmas, 0 <= cur <= max, heap/table consistency, every cached entry equals its file) is established by "
+             "__init__ and preserved by update_file / get_file / unload_file on normal AND exceptional exits; worker tasks (_write_file, "
+             "_load_file, update_file_futures_and_memory, recover_memory with loop invariants and variant, _unload_file, "
+             "update_file_access_time) under the weaker in-lock invariant W; KeyValueStorage.get/set/__getitem__/__setitem__: set => file "
+             "contents == ser(v), other paths untouched; get == deser(file) cached or not; never-set / directory key reads :undefined.",
+        note="Assumed: single client (a task runs when its submitter waits for it), ghost file model, pickle round trip, join injective on "
+             "normalised keys, library contracts of dict/heapq/Lock/ThreadPoolExecutor, msum lemmas (Lean). Not decided: the table store "
+             "(pandas merge), LRU order, alias spellings of one path.",
+        ref="DESIGN.md section 4 C16, Appendix A.3"),
+    'C17': dict(
+        text="Over a ghost three-level file model (Python buffer / OS cache / disk): _write_file ends with os[path]==data and, with "
+             "use_fsync, disk[path]==data; at EVERY statement boundary of _write_file every cell of every other path is unchanged "
+             "(crash isolation); update_file waits for the write task; KeyValueStorage.set returns only after disk[path(k)]==ser(v).",
+        note="Assumed: the POSIX-style persistence model itself (a buffered writer may push any prefix before flush; fsync copies the OS "
+             "cell to disk; directory entries durable on creation), join injective on normalised keys, single client. A real process kill "
+             "is outside this family.",
+        ref="DESIGN.md section 4 C17"),
 }
 
 NOT_APPLICABLE = {
